@@ -235,7 +235,61 @@ fn white_points(l: &mut Vec<Obl>) {
         });
 }
 
+fn luma_greys(l: &mut Vec<Obl>) {
+    use palette::luma::Luma;
+    use palette::{Lch, Yxy};
+    macro_rules! luma_grey {
+        ($key:literal, $S:ty, $W:ty) => {{
+            let w = <$W as WhitePoint<f64>>::get_xyz();
+            let (cx, cy) = (w.x / (w.x + w.y + w.z), w.y / (w.x + w.y + w.z));
+            oblf!(l; concat!("c14_luma_grey_", $key), "C14", Tier::Quick,
+                concat!("a grey Luma<", stringify!($S), "> of any level converts to xyY with the chromaticity of its white point ", stringify!($W), " (1e-9), to L*a*b* with a = b = 0 and to L*u*v* with u = v = 0 (1e-6)"),
+                ["<Yxy<Wp,T> as FromColorUnclamped<Luma<S,T>>>", "Yxy::default", "<Lab as FromColorUnclamped<Luma>>", "<Luv as FromColorUnclamped<Luma>>"],
+                [var("v", 0.01, 1.0)];
+                |v| {
+                    let mut r = Res::<B>::new();
+                    let g = Luma::<$S, T>::new(v[0]);
+                    let yxy: Yxy<$W, T> = Yxy::from_color_unclamped(g);
+                    r.goal("chromaticity_is_white", yxy.x.close(T::k(cx), 1e-9) & yxy.y.close(T::k(cy), 1e-9));
+                    let lab: Lab<$W, T> = Lab::from_color_unclamped(g);
+                    r.goal("lab_neutral", lab.a.close(T::k(0.0), 1e-6) & lab.b.close(T::k(0.0), 1e-6));
+                    let luv: Luv<$W, T> = Luv::from_color_unclamped(g);
+                    r.goal("luv_neutral", luv.u.close(T::k(0.0), 1e-6) & luv.v.close(T::k(0.0), 1e-6));
+                    r
+                });
+        }};
+    }
+    luma_grey!("srgb_d65", Srgb, wp::D65);
+    luma_grey!("prophoto_d50", ProPhotoRgb, wp::D50);
+    luma_grey!("linear_a", Linear<wp::A>, wp::A);
+    luma_grey!("linear_e", Linear<wp::E>, wp::E);
+    luma_grey!("linear_d75", Linear<wp::D75>, wp::D75);
+}
+
+fn cam16_whites(l: &mut Vec<Obl>) {
+    use palette::cam16::{Cam16, Parameters};
+    obl!(l; "c14_cam16_adopted_white_any_scale", "C14", Tier::Quick,
+        "CAM16 with a dynamic adopted white: the adopted white itself has lightness J = 100 (1e-6) whatever its luminance scale - D65 and D50 chromaticity scaled by 0.5, 0.8, 0.9, 1.0, 1.1 (L_A = 40, Y_b = 20, average surround)",
+        ["Parameters::default_dynamic_wp", "cam16::math::prepare_parameters", "Cam16::from_xyz"],
+        [];
+        |v| {
+            let mut r = Res::<B>::new();
+            for (name, w) in [("d65", <wp::D65 as WhitePoint<f64>>::get_xyz()), ("d50", <wp::D50 as WhitePoint<f64>>::get_xyz())] {
+                for k in [0.5f64, 0.8, 0.9, 1.0, 1.1] {
+                    let sc = |x: f64| <<T as palette::num::FromScalar>::Scalar as palette::num::Real>::from_f64(x);
+                    let white = Xyz::<wp::Any, <T as palette::num::FromScalar>::Scalar>::new(sc(w.x * k), sc(w.y * k), sc(w.z * k));
+                    let p = Parameters::default_dynamic_wp(white, sc(40.0)).bake();
+                    let c = Cam16::<T>::from_xyz(Xyz::<wp::Any, T>::new(T::k(w.x * k), T::k(w.y * k), T::k(w.z * k)), p);
+                    r.goal(&format!("{}_scale_{}", name, k), c.lightness.close(T::k(100.0), 1e-6));
+                }
+            }
+            r
+        });
+}
+
 pub fn register(l: &mut Vec<Obl>) {
+    luma_greys(l);
+    cam16_whites(l);
     white_points(l);
     oklab_std!(l, "srgb", Srgb);
     oklab_std!(l, "adobe", AdobeRgb);
